@@ -419,3 +419,84 @@ package generic
 //@   ensures iother: self.t == PathIntKey && t != proto.INT32 && t != proto.INT64 && t != proto.UINT32 && t != proto.UINT64 && t != proto.SINT32 && t != proto.SINT64 && \
 //@       t != proto.SFIX32 && t != proto.FIX32 && t != proto.SFIX64 && t != proto.FIX64 ==> len(r0) == 1
 //@   ensures other: self.t != PathFieldId && self.t != PathStrKey && self.t != PathIntKey ==> len(r0) == 0
+
+// ---- length prefixes of the enclosing layers (C10) ---------------------------------------------------------------
+// fixLength: the varint length prefix found at pos (behind the field tag when tagged) becomes old value + diff:
+//   same encoded size  -> rewritten in place, nothing else touched;
+//   other encoded size -> the buffer becomes  head ++ varint(new length) ++ tail  in a NEW allocation;
+//   new length 0 of a tagged element -> tag and length are dropped:  head-before-the-tag ++ tail.
+// The result is exactly the change of the buffer size, which is what updateByteLen hands to the next layer.
+// The byte pool: a slice taken from it is owned by the taker alone until it is given back (trusted; sync.Pool is not modelled).
+//@ spec NewBytesFromPool
+//@   trusted
+//@   ensures own: fresh(r0) && len(r0) == 0
+//@ spec FreeBytesToPool
+//@   trusted
+// (the helpers look at the buffer exactly as the code does: through the sub-slice that starts at pos)
+//@ pure vb(self *Value, pos int) []byte = bytes(ptradd(self.v, pos), self.l - pos)
+//@ pure ftl(self *Value, pos int, tagged bool) int = ite(tagged, protowire.vlen(vb(self, pos), 0), 0)
+//@ pure fll(self *Value, pos int, tagged bool) int = protowire.vlen(vb(self, pos + ftl(self, pos, tagged)), 0)
+//@ pure fnew(self *Value, pos int, tagged bool, diff int) int = int(protowire.vval(vb(self, pos + ftl(self, pos, tagged)), 0)) + diff
+//@ pure fhdr(self *Value, pos int, tagged bool) bool = 0 <= pos && pos <= self.l && (tagged ==> protowire.vlen(vb(self, pos), 0) > 0) && fll(self, pos, tagged) > 0
+//@ pure fdrop(self *Value, pos int, tagged bool, diff int) bool = tagged && fnew(self, pos, tagged, diff) == 0
+//@ pure fsame(self *Value, pos int, tagged bool, diff int) bool = !fdrop(self, pos, tagged, diff) && protowire.vsize(uint64(fnew(self, pos, tagged, diff))) == fll(self, pos, tagged)
+//@ spec (*Value).fixLength
+//@   props C10 C06
+//@   notypeinv
+//@   requires win: self != nil && windowif(true, self.v, self.l) && !samerg(self, self.v)
+//@   ensures valid: windowif(true, self.v, self.l) && !samerg(self, self.v)
+//@   ensures delta: r0 == self.l - old(self.l)
+//@   ensures nohdr: !old(fhdr(self, pos, tagged)) ==> r0 == 0 && same(self.v, old(self.v))
+//@   ensures inplace: old(fhdr(self, pos, tagged) && fsame(self, pos, tagged, diff)) ==> r0 == 0 && same(self.v, old(self.v))
+//@   ensures inplaceenc: old(fhdr(self, pos, tagged) && fsame(self, pos, tagged, diff)) ==> forall k :: 0 <= k && k < old(fll(self, pos, tagged)) ==> \
+//@       byteat(self.v, pos + old(ftl(self, pos, tagged)) + k) == protowire.venc(uint64(old(fnew(self, pos, tagged, diff))), k)
+//@   ensures grow: old(fhdr(self, pos, tagged) && !fsame(self, pos, tagged, diff) && !fdrop(self, pos, tagged, diff)) ==> fresh(self.v) && \
+//@       r0 == protowire.vsize(uint64(old(fnew(self, pos, tagged, diff)))) - old(fll(self, pos, tagged))
+//@   ensures growhead: old(fhdr(self, pos, tagged) && !fsame(self, pos, tagged, diff) && !fdrop(self, pos, tagged, diff)) ==> \
+//@       forall i :: 0 <= i && i < pos + old(ftl(self, pos, tagged)) ==> byteat(self.v, i) == old(byteat(self.v, i))
+//@   ensures growenc: old(fhdr(self, pos, tagged) && !fsame(self, pos, tagged, diff) && !fdrop(self, pos, tagged, diff)) ==> \
+//@       forall k :: 0 <= k && k < protowire.vsize(uint64(old(fnew(self, pos, tagged, diff)))) ==> \
+//@       byteat(self.v, pos + old(ftl(self, pos, tagged)) + k) == protowire.venc(uint64(old(fnew(self, pos, tagged, diff))), k)
+//@   ensures growtail: old(fhdr(self, pos, tagged) && !fsame(self, pos, tagged, diff) && !fdrop(self, pos, tagged, diff)) ==> \
+//@       forall i :: 0 <= i && i < old(self.l) - pos - old(ftl(self, pos, tagged)) - old(fll(self, pos, tagged)) ==> \
+//@       byteat(self.v, pos + old(ftl(self, pos, tagged)) + protowire.vsize(uint64(old(fnew(self, pos, tagged, diff)))) + i) == \
+//@       old(byteat(self.v, pos + ftl(self, pos, tagged) + fll(self, pos, tagged) + i))
+//@   ensures drop: old(fhdr(self, pos, tagged) && fdrop(self, pos, tagged, diff)) ==> fresh(self.v) && r0 == 0 - old(ftl(self, pos, tagged)) - old(fll(self, pos, tagged))
+//@   ensures drophead: old(fhdr(self, pos, tagged) && fdrop(self, pos, tagged, diff)) ==> forall i :: 0 <= i && i < pos ==> byteat(self.v, i) == old(byteat(self.v, i))
+//@   ensures droptail: old(fhdr(self, pos, tagged) && fdrop(self, pos, tagged, diff)) ==> \
+//@       forall i :: 0 <= i && i < old(self.l) - pos - old(ftl(self, pos, tagged)) - old(fll(self, pos, tagged)) ==> \
+//@       byteat(self.v, pos + i) == old(byteat(self.v, pos + ftl(self, pos, tagged) + fll(self, pos, tagged) + i))
+//@   modifies self.Node.v, self.Node.l, bytes(self.v, self.l)[pos + ftl(self, pos, tagged) : pos + ftl(self, pos, tagged) + fll(self, pos, tagged)] if fhdr(self, pos, tagged)
+
+// fixEntryLength: walks the map entries that start at base and applies fixLength to the entry that contains the
+// position at (the tag of the edited value); no such entry (at is an entry boundary: the entry was inserted or
+// removed as a whole) -> nothing happens. Total on arbitrary bytes; the result is the change of the buffer size.
+//@ spec (*Value).fixEntryLength
+//@   props C10 C06
+//@   notypeinv
+//@   requires win: self != nil && windowif(true, self.v, self.l) && !samerg(self, self.v)
+//@   ensures valid: windowif(true, self.v, self.l) && !samerg(self, self.v)
+//@   ensures delta: r0 == self.l - old(self.l)
+//@   ensures none: !(0 <= base && base < at && at <= old(self.l)) ==> r0 == 0 && same(self.v, old(self.v))
+//@   modifies self.Node.v, self.Node.l, bytes(self.v, self.l)[0:self.l]
+//@   loop 1
+//@     invariant self: same(self.v, old(self.v)) && self.l == old(self.l) && same(buf, self.v) && len(buf) == self.l
+//@     invariant mono: base <= pos && (pos == base || 0 <= base)
+//@     decreases at - pos
+
+// updateByteLen: walks the layers of the path from the edited element outwards; diffLen is, at every layer, exactly
+// the number of bytes by which the buffer has changed since the edit began (edit + re-encoded prefixes so far) —
+// the amount every enclosing length prefix has to move by.
+//@ spec (*Value).updateByteLen
+//@   props C10 C06
+//@   notypeinv
+//@   requires win: self != nil && windowif(true, self.v, self.l)
+//@   requires aligned: len(path) >= len(address)
+//@   requires sep: !samerg(self, self.v) && !samerg(address, self.v) && !samerg(path, self.v) && !samerg(address, self) && !samerg(path, self)
+//@   ensures valid: windowif(true, self.v, self.l)
+//@   modifies self.Node.v, self.Node.l, bytes(self.v, self.l)[0:self.l]
+//@   loop 1
+//@     invariant win: windowif(true, self.v, self.l) && !samerg(self, self.v)
+//@     invariant diff: diffLen == self.l - originLen
+//@     invariant i: 0 - 1 <= i && i < len(address)
+//@     decreases i + 1
